@@ -394,6 +394,7 @@ std::vector<PTok> gen_sentence(const ref::Model& m, Rng& rng, int budget, bool w
             for (int i = 0; i < n; ++i)
             {
                 unsigned char c = rng.chance(1, 10) ? (unsigned char)rng.below(256) : (unsigned char)rng.range(33, 126);
+                if (i > 0 && rng.chance(1, 16)) c = '\n';       // multi-line custom lexemes
                 if (i == 0 && ref::is_ws(c, true)) c = 'q';
                 tk.lex += char(c);
             }
